@@ -1329,6 +1329,10 @@ def check_inram_update(chk, tier, pool):
         on_trials.set(it, tid, mdDT)
         cls = ModuleInfo.get(LPS).classes['InRamPolicySupporter']
         sup = Obj(cls, {'study_config': Obj('opaque:ProblemStatement', {'metadata': run.mdS}), '_trials': trials})
+        # the delta's Metadata objects are VIEWS positioned at arbitrary current namespaces of their trees
+        run.T['C'], run.T['C3'] = MD.fresh_tuple(run, 'C'), MD.fresh_tuple(run, 'C3')
+        mdD = _mcall(it, mdD, 'abs_ns', run.T['C'])
+        on_trials.items_[0][1] = _mcall(it, mdDT, 'abs_ns', run.T['C3'])
         delta = Obj('opaque:MetadataDelta', {'on_study': mdD, 'on_trials': on_trials})
         return it.invoke(E.FuncVal(cls.mod, cls.methods['_UpdateMetadata'], cls), [sup, delta], {})
 
@@ -1364,6 +1368,13 @@ def check_inram_update(chk, tier, pool):
         elif res is not None:
             bounded[name] = {'model': 'exception after the study-level metadata was updated\nnative=%s' % json.dumps(res),
                              'replay': {'driver': 'replay/c10_replay.py inram_update_metadata', 'native_result': res}, 'reproduced': bool(res.get('reproduced'))}
+    pw = P + 'pointwise'
+    if any(i.verdict != 'unsat' for i in c.by_name.get(pw, [])):
+        res, raw = pool.get('inram_update_metadata')
+        if res is not None and res.get('view_reproduced'):
+            bounded[pw] = {'model': 'a MetadataDelta whose Metadata objects are views positioned at a non-root namespace is not applied at the absolute namespaces '
+                                    'of its entries\nnative=%s' % json.dumps(res.get('view_failures'))[:1500],
+                           'replay': {'driver': 'replay/c10_replay.py inram_update_metadata', 'native_result': res.get('view_failures')}, 'reproduced': True}
     c.finalize(known=known, bounded=bounded)
 
 
